@@ -198,13 +198,93 @@ theorem binv_findOrCreateTable (w : World) (b : BInv w) (hI : NodeInv w) (start 
     | some t => exact h2.binv
     | none => simp only []; exact binv_of_dsame (dsame_createTable s2.w s2.curr target true) h2.binv
 
+
+/-! ## sizes of the index and of the target flags -/
+
+structure Sz (w w' : World) : Prop where
+  index : w'.index.size = w.index.size
+  flags : w'.flags.size = w.flags.size
+
+namespace Sz
+theorem refl (w : World) : Sz w w := ⟨rfl, rfl⟩
+theorem trans {a b c : World} (h1 : Sz a b) (h2 : Sz b c) : Sz a c := ⟨h2.index.trans h1.index, h2.flags.trans h1.flags⟩
+theorem of_misc {w w' : World} (h : Misc w w') : Sz w w' := ⟨by rw [h.index], by rw [h.flags]⟩
+theorem of_setTable (w : World) (t : Nat) (tb : Table) : Sz w (w.setTable t tb) := ⟨rfl, rfl⟩
+theorem of_setIndex (w : World) (i : Nat) (l : Option Loc) : Sz w (w.setIndex i l) := ⟨by unfold setIndex; simp, rfl⟩
+theorem of_setFlag (w : World) (i : Nat) (v : Bool) : Sz w (w.setFlag i v) := ⟨rfl, by unfold setFlag; simp⟩
+theorem of_markTarget (w : World) (t : Entity) : Sz w (w.markTarget t) := by
+  unfold markTarget; split
+  · exact refl w
+  · exact of_setFlag _ _ _
+end Sz
+
+theorem sz_idxFold (dst start : Nat) (l : List (Row × Nat)) (w : World) : Sz w (Batch.idxFold dst start l w) := by
+  induction l generalizing w with
+  | nil => exact Sz.refl w
+  | cons p ps ih =>
+    unfold Batch.idxFold at ih ⊢
+    simp only [List.foldl_cons]
+    exact Sz.trans (Sz.of_setIndex _ _ _) (ih _)
+
+theorem sz_moveAll (w : World) (src dst n : Nat) : Sz w (w.moveAll src dst n).1 := by
+  unfold moveAll
+  simp only []
+  exact Sz.trans (Sz.of_setTable _ _ _) (sz_idxFold dst _ _ _)
+
+theorem sz_removeRowFix (w : World) (t r : Nat) : Sz w (w.removeRowFix t r) := by
+  unfold removeRowFix tableRemove
+  simp only []
+  split
+  · simp only [Bool.false_eq_true, ↓reduceIte]; exact Sz.of_setTable _ _ _
+  · simp only [↓reduceIte]; exact Sz.trans (Sz.of_setTable _ _ _) (Sz.of_setIndex _ _ _)
+
+theorem sz_moveEntity (w : World) (e : Entity) (l : Loc) (t : Nat) : Sz w (w.moveEntity e l t) := by
+  unfold moveEntity tableAlloc
+  simp only []
+  exact Sz.trans (Sz.trans (Sz.trans (Sz.of_setTable _ _ _) (Sz.of_setTable _ _ _)) (sz_removeRowFix _ _ _)) (Sz.of_setIndex _ _ _)
+
+theorem sz_archFinish (w1 : World) (src dst n : Nat) (tgt : Entity) : Sz w1 (BatchOps.archFinish w1 src dst n tgt).1 := by
+  unfold BatchOps.archFinish
+  simp only []
+  exact Sz.trans (Sz.trans (Sz.trans (sz_moveAll w1 src dst n) (Sz.of_markTarget _ tgt)) (Sz.of_setTable _ _ _)) (Sz.of_misc (misc_cleanupTable _ src))
+
+/-- a successful `exchangeArch` with registered ids keeps `BInv` and the index / flag sizes -/
+theorem binv_exchangeArch (w : World) (b : BInv w) (hI : NodeInv w) (src n : Nat) (hs : src < w.tables.size)
+    (add rem : List CompId) (rel : Option CompId) (target : Entity) (hadd : ∀ id ∈ add, id < w.reg.count) (be : BatchEntry)
+    (hok : (w.exchangeArch src n add rem rel target).2 = .ok be) :
+    BInv (w.exchangeArch src n add rem rel target).1 ∧ Sz w (w.exchangeArch src n add rem rel target).1 := by
+  obtain ⟨mask, tgt, dst, _, _, _, hw, _⟩ := BatchOps.exchangeArch_ok w src n add rem rel target be hok
+  rw [hw]
+  have b1 := binv_findOrCreateTable w b hI src hs add rem tgt hadd
+  have s := dsame_archFinish (w.findOrCreateTable src add rem tgt).1 src dst n tgt
+  exact ⟨binv_of_dsame s b1, Sz.trans (Sz.of_misc (misc_findOrCreateTable w src add rem tgt)) (sz_archFinish _ src dst n tgt)⟩
+
+theorem sz_exchangeArch (w : World) (src n : Nat) (add rem : List CompId) (rel : Option CompId) (target : Entity) (be : BatchEntry)
+    (hok : (w.exchangeArch src n add rem rel target).2 = .ok be) : Sz w (w.exchangeArch src n add rem rel target).1 := by
+  obtain ⟨mask, tgt, dst, _, _, _, hw, _⟩ := BatchOps.exchangeArch_ok w src n add rem rel target be hok
+  rw [hw]
+  exact Sz.trans (Sz.of_misc (misc_findOrCreateTable w src add rem tgt)) (sz_archFinish _ src dst n tgt)
+
 /-! ## the root table -/
 
-/-- table 0 exists, is active, has the empty component set and no target -/
+/-- table 0 exists and has the empty component set -/
 structure RootInv (w : World) : Prop where
   size : 0 < w.tables.size
   mask : w.tableMask 0 = 0
-  active : (w.tableOf 0).active = true
-  target : (w.tableOf 0).target = Entity.zero
+
+/-- …hence it is active and has no target -/
+theorem root_active (w : World) (hK : KInv w) (hD : DInv w) (h : RootInv w) :
+    (w.tableOf 0).active = true ∧ (w.tableOf 0).target = Entity.zero := by
+  have hn := hK.node.tnode 0 h.size
+  have hrel : (w.nodeOf (w.tableOf 0).node).rel = none := by
+    cases hr : (w.nodeOf (w.tableOf 0).node).rel with
+    | none => rfl
+    | some c =>
+      have := (hD.rel _ hn c).1 hr
+      have hm : (w.nodeOf (w.tableOf 0).node).mask = 0 := h.mask
+      rw [hm] at this
+      simp [Mask.get] at this
+  obtain ⟨a, b⟩ := hK.tgt.norel 0 h.size hrel
+  exact ⟨b, a⟩
 
 end Arche.Frames
